@@ -114,6 +114,35 @@ type closeCounter struct {
 
 func (c closeCounter) Close() error { atomic.AddInt64(c.n, 1); return nil }
 
+// zeros: an "endless" tail of a response body (64 MiB) that counts what is read of it.
+type zeros struct {
+	left int64
+	read *int64
+}
+
+func (z *zeros) Read(p []byte) (int, error) {
+	if z.left <= 0 {
+		return 0, io.EOF
+	}
+	n := int64(len(p))
+	if n > z.left {
+		n = z.left
+	}
+	for i := int64(0); i < n; i++ {
+		p[i] = 0
+	}
+	z.left -= n
+	atomic.AddInt64(z.read, n)
+	return int(n), nil
+}
+
+func respBody(class string, body []byte, drained *int64) io.Reader {
+	if class == "flood" {
+		return io.MultiReader(bytes.NewReader(body), &zeros{left: 64 << 20, read: drained})
+	}
+	return bytes.NewReader(body)
+}
+
 func runResp(raw json.RawMessage, seed int64, rec *Rec) {
 	var s respScenario
 	if err := json.Unmarshal(raw, &s); err != nil {
@@ -159,6 +188,8 @@ func runResp(raw json.RawMessage, seed int64, rec *Rec) {
 			body = append(refcodec.Envelope(0, marshalBV(m1)), refcodec.Envelope(0, marshalBV(m2))...)
 		case "garbage":
 			body = []byte{0xFF, 0x00, 0x00, 0x10, 0x00, 0xAB, 0xCD}
+		case "flood": // a message the client cannot read (compressed flag, no encoding named), then data without end
+			body = refcodec.Envelope(1, refcodec.Gzip(marshalBV(m1)))
 		}
 		if s.Body == "good" || s.Body == "nomsg" || s.Body == "twomsgs" {
 			key := casingOf("X-Meta", s.Casing)
@@ -235,7 +266,7 @@ func runResp(raw json.RawMessage, seed int64, rec *Rec) {
 		hdr.Set(encodingHeader(s.Proto, unaryConnect), "zstd-verif")
 	}
 
-	var closes int64
+	var closes, drained int64
 	fake := &fakeHTTP{}
 	fake.respond = func(req *http.Request) (*http.Response, error) {
 		switch s.Ctype {
@@ -254,7 +285,7 @@ func runResp(raw json.RawMessage, seed int64, rec *Rec) {
 			hdr.Set("Content-Type", "application/json")
 		}
 		return &http.Response{StatusCode: s.Status, Status: statusLine(s.Status), ProtoMajor: 2, Header: hdr,
-			Trailer: trailer, Body: closeCounter{bytes.NewReader(body), &closes}, Request: req}, nil
+			Trailer: trailer, Body: closeCounter{respBody(s.Body, body, &drained), &closes}, Request: req}, nil
 	}
 	copts := clientProtoOpts(s.Proto)
 	if s.Fuzz > 0 {
@@ -339,5 +370,6 @@ func runResp(raw json.RawMessage, seed int64, rec *Rec) {
 	if trl != nil && found(trl) {
 		lookup = "hit"
 	}
-	rec.Add(E("done", "ok", cerr == nil, "code", codeOf(cerr), "n", n, "lookup", lookup, "closed", atomic.LoadInt64(&closes)))
+	rec.Add(E("done", "ok", cerr == nil, "code", codeOf(cerr), "n", n, "lookup", lookup, "closed", atomic.LoadInt64(&closes),
+		"drained_kb", atomic.LoadInt64(&drained)>>10))
 }
